@@ -96,10 +96,8 @@ def runner(prop, fam, tier, seed, replay=None):
             from concurrent.futures import ThreadPoolExecutor
             ex = ThreadPoolExecutor(max_workers=4)
             # the counterexamples are needed by the explorer; the other design runs go on beside the exploration
-            f0 = ex.submit(_design_counterexamples, pre)
-            fs = [ex.submit(_design_must_pass, pre, m, c, w) for (m, c, w) in (DESIGN_THOROUGH if tier == "thorough" else DESIGN)]
             try:
-                res, cex = f0.result()
+                res, cex = _design_counterexamples(pre)
             except Infra as e:
                 print("INFRA-FAILURE property=%s %s" % (prop, str(e)[:3000]), flush=True)
                 return 2
@@ -116,6 +114,7 @@ def runner(prop, fam, tier, seed, replay=None):
                               counterexamples=[dict(clauses=cl, in_flight=fx, events=evs) for cl, fx, evs in cex],
                               note="counterexamples of the design as it is at HEAD; each is executed on the real manager as chain shape#cex<i> "
                                    "(a history that violates on the real code is reported through the normal VIOLATION / KNOWN-FINDING path)")
+            fs = [ex.submit(_design_must_pass, pre, m, c, w) for (m, c, w) in (DESIGN_THOROUGH if tier == "thorough" else DESIGN)]
             log("design as it is: %d counterexample histories (%s)" % (len(cex), "; ".join(",".join(c) + "@" + fx for c, fx, _ in cex)))
         try:
             rc = table_check(prop, fam2, tier, seed, replay)
